@@ -78,10 +78,6 @@ func (p *Proof) IsValid(public Public) bool {
 	if !arith.IsValidNatModN(public.Prover.N(), p.W) {
 		return false
 	}
-	// Z1 is encrypted below: it must lie in the plaintext range
-	if p.Z1.CheckInRange(public.Prover.N()) != 1 {
-		return false
-	}
 	return true
 }
 
@@ -140,8 +136,11 @@ func (p *Proof) Verify(hash *hash.Hash, public Public) bool {
 	}
 
 	{
-		// lhs = Enc₀(z₁;w)
-		lhs := public.Prover.EncWithNonce(p.Z1, p.W)
+		// lhs = Enc₀(z₁;w), with z₁ taken into the plaintext space ±(N-1)/2: the ciphertext only depends
+		// on z₁ mod N, and an honest z₁ = α + e⋅y lies outside of that range when y is large
+		N := public.Prover.N()
+		z1 := new(saferith.Int).SetModSymmetric(p.Z1.Mod(N), N)
+		lhs := public.Prover.EncWithNonce(z1, p.W)
 
 		// rhs = (e ⊙ C) ⊕ A
 		rhs := public.C.Clone().Mul(public.Prover, e).Add(public.Prover, p.A)
